@@ -11,7 +11,7 @@ EXPLANATION = (
     "only when the insertion of its x-encoding into the distinctness set succeeded, refusal happens iff that set is "
     "empty or smaller than the threshold, and interpolation gets the first `threshold` stored shares; (R5) the "
     "sharing polynomial is a deterministic function of (threshold, r0, r1) - no RNG atom reaches the dealer; (R7) the "
-    "payload is len|measurement followed by len|aux exactly when aux is Some (no further condition).  Codec "
+    "payload is len|measurement followed by len|aux exactly when aux is Some (no further condition); (R8) no failure site of client generation, key derivation, decryption or report encoding depends on the measurement, epoch, threshold, randomness or associated data (discharged by the C09 engine), so no honest input can make a step of recovery crash.  Codec "
     "agreement (R6) is decided under C08.  NOT decided: that Lagrange interpolation at 0 returns the constant "
     "term, that Strobe decrypts what it encrypted, any statement about concrete thresholds / subsets.")
 ASSUMPTIONS = ["Strobe send_enc/recv_enc under equal transcripts are inverse (trusted: strobe-rs)",
@@ -181,6 +181,17 @@ def run(ctx):
                     % [Q.show_fact(f, 3) for f in extra], sb[0]["at"], sample=[Q.show_fact(f, 3) for f in extra])
         else:
             ctx.add("C01.R7", "sta_rs::Message::generate#aux-store", False, "expected one store_bytes of the aux (found %d)" % len(sb), at)
+    # ---- R8 no measurement / epoch / aux / threshold value can crash generation, key derivation, decryption or the
+    #         report codec (PANIC engine of C09 with the honest inputs as the varying data; allocation sizes excluded)
+    from . import c09
+    ix_ = fidx(ctx, MG, "x")
+    c09.run_entries(ctx, "C01.R8", [
+        ("sta_rs::Message::generate", {"mg", "rnd", "aux"}, "A"),
+        ("sta_rs::MessageGenerator::share_with_local_randomness", {"self"}, "A"),
+        ("sta_rs::derive_ske_key", {"r1", "epoch"}, "A"),
+        ("sta_rs::Ciphertext::decrypt", {"self", "enc_key_buf", "label"}, "A"),
+    ], 64, skip_kinds=("alloc",))
+    ctx.floor("C01.R8.ENTRY", 4)
     ctx.floor("C01.R1", 4)
     ctx.floor("C01.R2", 4)
     ctx.floor("C01.R3", 2)
@@ -220,11 +231,15 @@ def recover_guards(ctx, rule):
     ctx.add(rule, root + "#push-iff-new-x", ok_a,
             "a share may enter the interpolation vector only when the insertion of its own x encoding into the "
             "distinctness set succeeded (%s)" % detail, push["at"], sample=detail)
-    # (a') the key is an injective encoding of x: to_repr bytes
+    # (a') the key is an injective encoding of x: the whole to_repr byte string (no truncation / partial decode)
     if guard:
         key = guard[0][0].args[1]
-        ctx.add(rule, root + "#key-is-x-encoding", key.op == "fp_to_repr" or Q.contains(key, lambda t: t.op == "fp_to_repr"),
-                "the distinctness key must be the canonical encoding of x; found %s" % S(key, 4), push["at"])
+        k = key
+        while k.op in ("refv", "conv", "deref") or (k.op == "copied" and True):
+            k = k.args[0]
+        whole = k.op == "fp_to_repr"
+        ctx.add(rule, root + "#key-is-x-encoding", whole,
+                "the distinctness key must be the complete canonical encoding of x (a truncated or re-decoded key lets distinct points collide); found %s" % S(key, 4), push["at"])
     # (b) equal-length guard dominates the push
     eqlen = [f for f in pf if f[0].op == "eq" and f[1:] == ("eq", 1) and
              Q.contains(f[0], lambda t: t.op == "len" and (Q.path_of(t.args[0]) or "").endswith(".%d" % iy))]
